@@ -1,7 +1,7 @@
 SPECIFICATION Spec
 CONSTANTS
   Lists <- ListsTwo
-  MaxTypes = 2
+  MaxTypes = 1
   MaxFuncs = 1
   MaxEdits = 4
   EditOps = {"findadd", "nametype", "delete", "gc"}
